@@ -645,7 +645,16 @@ public:
     {
         invariants();
 
-        return compare(thePosition1, theCount1, theString.c_str() + thePosition2, theCount2);
+        assert(thePosition2 <= theString.length());
+
+        // Like std::basic_string, compare no more than there is.
+        const size_type     theRemaining = theString.length() - thePosition2;
+
+        return compare(
+                    thePosition1,
+                    theCount1,
+                    theString.c_str() + thePosition2,
+                    theCount2 > theRemaining ? theRemaining : theCount2);
     }
 
     int
